@@ -37,15 +37,20 @@ def check_predicate(ctx):
         tname, rname = a[-3], a[-1]
         se = symx.SymExec(prog, 'Rule')
         ff, tm, rs = sp.Symbol('ff', real=True), sp.Symbol('tm', real=True), sp.Symbol('rs', real=True)
-        env = {tname: tm, rname: rs, 'self.frequency_flag': ff}
+        dts = sp.Symbol('dts', positive=True)
+        env = {tname: tm, rname: rs, 'self.frequency_flag': ff, a[-2]: dts}
         cond = se._bool(se.ex(ifs[0].test, env))
         bad = None
         for fv in (-2, -1, 0, 3, 5):
-            for tv in (0, 3):
+            for tv in (0, 3, sp.Rational(31, 10), sp.Rational(29, 10)):       # on the scheduled time, and just beside it
                 for rv in (0, 1):
-                    got = bool(cond.subs({ff: fv, tm: tv, rs: rv}))
+                    try:
+                        got = bool(cond.subs({ff: fv, tm: tv, rs: rv, dts: sp.Rational(1, 4)}))
+                    except TypeError:
+                        problems.append('the firing test depends on something other than the flag, the time and rule_step: %s' % cond)
+                        got = None
                     exp = (fv == -1) or (fv == tv) or (rv == 1 and fv == -2)
-                    if got != exp:
+                    if got is not None and got != exp:
                         bad = (fv, tv, rv, got)
         if bad:
             problems.append('flag %s, time %s, rule_step %s: fires=%s' % bad)
@@ -127,12 +132,17 @@ def check_operations(ctx):
             else:
                 a = [x.arg for x in f.args.args[1:]]
                 ifs = [s for s in f.body if isinstance(s, ast.If)]
-                if len(ifs) != 1 or src(ifs[0].test).replace(' ', '') != 'self.param_flag>0':
+                ct = util.canon_test(ifs[0].test) if len(ifs) == 1 else None
+                if ct == '0<self.param_flag' or ct == '0!=self.param_flag':
+                    param_branch, species_branch = ifs[0].body, ifs[0].orelse
+                elif ct in ('self.param_flag<=0', '0==self.param_flag'):
+                    param_branch, species_branch = ifs[0].orelse, ifs[0].body
+                else:
                     raise AnalysisError('%s.%s: destination switch on param_flag not found' % (cls, meth))
                 se = symx.SymExec(prog, cls)
                 env = {a[-1]: dt}
                 rhs_args = ', '.join(a[:-1])
-                for branch, arr in ((ifs[0].body, a[1]), (ifs[0].orelse, a[0])):
+                for branch, arr in ((param_branch, a[1]), (species_branch, a[0])):
                     tgt, val = branch_store(se, branch, env)
                     if tgt != '%s[self.dest_index]' % arr:
                         problems.append('%s branch stores into %s, expected %s[self.dest_index]' % ('parameter' if arr == a[1] else 'species', tgt, arr))
@@ -184,6 +194,32 @@ def check_operations(ctx):
                 detail = '%d sources: %s' % (n, got)
     ctx.ob('R9.2-operation', 'AdditiveAssignmentRule.rule_operation', ok, ctx.loc('types', f),
            'state[dest] = sum of state[source_i] over all sources', detail)
+
+
+def check_rule_slots(ctx):
+    """every concrete rule class executes a real operation in both the plain and the volume mode"""
+    prog = ctx.prog
+    subs = [c for c in prog.subclasses('Rule') if prog.classes[c].module == 'types']
+    if len(subs) < 3:
+        raise AnalysisError('anchor vanished: rule classes (%s)' % subs)
+    for cls in sorted(subs):
+        for op in ('rule_operation', 'rule_volume_operation'):
+            dc, f = prog.resolve_method(cls, op)
+            problems = []
+            if f is None:
+                problems.append('no %s' % op)
+            else:
+                ctx.functions.add('types:%s.%s' % (dc, op))
+                body = [s for s in f.body if not (isinstance(s, ast.Expr) and isinstance(s.value, ast.Constant))]
+                if body and isinstance(body[0], ast.Raise):
+                    problems.append('%s executes %s.%s, which only raises %s' % (cls, dc, op, src(body[0].exc)[:40]))
+                elif dc == 'Rule' and op == 'rule_volume_operation':
+                    a = [x.arg for x in f.args.args[1:]]
+                    want = 'self.rule_operation(%s)' % ', '.join([a[0], a[1], a[3], a[4]])
+                    if [util.stmt_key(s) for s in body] != [want]:
+                        problems.append('the inherited volume operation is %s, expected %s' % ([util.stmt_key(s) for s in body], want))
+            ctx.ob('R9.2-operation-slot', '%s.%s' % (cls, op), not problems, ctx.loc('types', f) if f is not None else '',
+                   'a %s executes a real operation in this mode (its own, or the plain one through the base default)' % cls, '; '.join(problems))
 
 
 # ------------------------------------------------------------------------------ R9.3 / R9.4
@@ -433,6 +469,7 @@ def check(ctx):
         prog.mod(m)
     check_predicate(ctx)
     check_operations(ctx)
+    check_rule_slots(ctx)
     for key in list(simloop.SIMULATORS) + ['Lineage']:
         check_loop(ctx, key)
     check_iface_apply(ctx)
